@@ -584,6 +584,9 @@ class RPCInterface:
         """
         # WARN: do NOT check OPERATION (it is used internally in DISTRIBUTION state)
         _, process = self._get_application_process(namespec)
+        if not process:
+            # a group namespec (group:*) is not applicable here
+            self._raise(Faults.BAD_NAME, 'start_args', f'process name expected in namespec={namespec}')
         # update command line in process config with extra_args
         try:
             self.supvisors.supervisor_data.update_extra_args(process.namespec, extra_args)
